@@ -111,11 +111,14 @@ class SuperNet(DNAS):
         model = self.seed
         training_status = {m: m.training for m in self.seed.modules()}
         sampled = {m: m.theta_alpha for m in self.seed.modules() if hasattr(m, 'theta_alpha')}
-        model, _, _ = convert(model, self._input_example, 'export')
-        for m, status in training_status.items():
-            m.training = status
-        for m, theta_alpha in sampled.items():
-            m.theta_alpha = theta_alpha
+        try:
+            model, _, _ = convert(model, self._input_example, 'export')
+        finally:
+            # also when the conversion raises
+            for m, status in training_status.items():
+                m.training = status
+            for m, theta_alpha in sampled.items():
+                m.theta_alpha = theta_alpha
         return model
 
     def summary(self) -> Dict[str, Dict[str, Any]]:
